@@ -4,6 +4,7 @@ package interp
 
 import (
 	"fmt"
+	"time"
 	"go/types"
 	"sort"
 	"strings"
@@ -95,6 +96,9 @@ type HarnessRun struct {
 	Paths       int
 	Forks       int64
 	BoundExceeded string
+	Deadline      time.Time // exploration stops (as a reported bound) after this instant
+	MaxViolations int       // stop exploring after this many violated obligations (0 = never)
+	violated      int
 	WitnessCap    int
 	Witnesses     []Witness
 }
@@ -123,6 +127,18 @@ func (r *HarnessRun) next() (workItem, bool) {
 			return workItem{}, false
 		}
 		if len(r.work) > 0 {
+			if !r.Deadline.IsZero() && time.Now().After(r.Deadline) {
+				r.BoundExceeded = fmt.Sprintf("time limit reached with %d prefixes unexplored (%d paths done)", len(r.work), r.started)
+				r.stopped = true
+				r.cond.Broadcast()
+				return workItem{}, false
+			}
+			if r.MaxViolations > 0 && r.violated >= r.MaxViolations {
+				r.BoundExceeded = fmt.Sprintf("stopped after %d violated obligations with %d prefixes unexplored", r.violated, len(r.work))
+				r.stopped = true
+				r.cond.Broadcast()
+				return workItem{}, false
+			}
 			if r.started >= r.MaxPaths {
 				r.BoundExceeded = fmt.Sprintf("path limit %d reached with %d prefixes unexplored", r.MaxPaths, len(r.work))
 				r.stopped = true
@@ -631,6 +647,11 @@ func (e *Explorer) merge(end PathEnd) {
 	r.Steps += e.steps
 	r.Forks += e.forks
 	r.Obligations = append(r.Obligations, e.obligations...)
+	for _, ob := range e.obligations {
+		if ob.Status == "violated" {
+			r.violated++
+		}
+	}
 	r.Ends[end.Status]++
 	if end.Status != "ok" && len(r.EndSamples) < 40 {
 		r.EndSamples = append(r.EndSamples, end)
